@@ -48,6 +48,7 @@ class Ctx:
     """Per-run context handed to a property's ``run(ctx)``."""
 
     def __init__(self, prop: str, tier: str, repo: Repo, seed: int = 0):
+        self.shared_errors: List[str] = []
         self.prop = prop
         self.tier = tier
         self.repo = repo
@@ -139,6 +140,20 @@ class SubCtx:
         pass
 
 
+def run_shared(ctx: Any, run, mapping: Dict[str, Any], drop_keys: Optional[set] = None) -> None:
+    """Evaluate another property's rules under this property's ids.  The other property's own anchors are its own
+    business: if its run stops on one (AnalysisError), what was evaluated of the shared rules stands, the error is
+    kept, and this property's run goes on - a violation found by this property's rules is still reported; without one
+    the run ends as an analysis error (the shared rules were not all decided)."""
+    root = ctx
+    while isinstance(root, SubCtx):
+        root = root._c
+    try:
+        run(SubCtx(ctx, mapping, drop_keys))
+    except AnalysisError as e:
+        root.shared_errors.append(f"{'/'.join(sorted(v[0] for v in mapping.values()))}: {e}")
+
+
 def where(mod: Module, node: ast.AST) -> str:
     return f"{mod.name}:{mod.qualname_of(node)}"
 
@@ -151,14 +166,6 @@ def load_known() -> Dict[str, Any]:
 
 def finish(ctx: Ctx, level_text: str, explanation: str) -> int:
     """Evaluate obligations, print the report, write evidence, return exit code."""
-    # vacuity guard
-    for rid, mn in ctx.minimum.items():
-        got = ctx.count(rid)
-        if got < mn:
-            raise AnalysisError(
-                f"rule {rid} found {got} instance(s), fewer than the {mn} confirmed on the reference tree "
-                f"(an anchor it depends on was renamed or removed)"
-            )
     known = load_known()
     kmap = {k["key"]: k for k in known.get("known", []) if k.get("property") == ctx.prop}
     viol = [o for o in ctx.obs if not o.ok]
@@ -171,6 +178,20 @@ def finish(ctx: Ctx, level_text: str, explanation: str) -> int:
             uniq.append(o)
     listed = [o for o in uniq if o.fkey in kmap]
     new = [o for o in uniq if o.fkey not in kmap]
+
+    # vacuity guard (a violation that was found is reported whatever else is missing)
+    if not new:
+        for rid, mn in ctx.minimum.items():
+            got = ctx.count(rid)
+            if got < mn:
+                raise AnalysisError(
+                    f"rule {rid} found {got} instance(s), fewer than the {mn} confirmed on the reference tree "
+                    f"(an anchor it depends on was renamed or removed)"
+                )
+    if ctx.shared_errors and not new:
+        raise AnalysisError("a rule shared with another property could not be evaluated: " + "; ".join(ctx.shared_errors))
+    for e_ in ctx.shared_errors:
+        ctx.notes.append("shared rule not evaluated: " + e_)
 
     print(f"== {ctx.prop} tier={ctx.tier} repo={ctx.repo.root}")
     for rid, text in ctx.rules.items():
